@@ -27,6 +27,21 @@ try:
         if not any(ch.tag in ("failure", "error", "skipped") for ch in tc):
             passed.add(name)
     missing = sorted(stable - passed)
+    # a pinned test that fails once may be flaky (random delivery orders): re-run it alone, up to 3 times
+    still = []
+    for name in missing:
+        mod, test = name.split("::", 1)
+        node = mod.replace(".", "/") + ".py::" + test
+        okk = False
+        for _ in range(3):
+            rr = sh(f"cd {wt} && /venv/bin/python -m pytest -q -p no:cacheprovider -p no:randomly '{node}'", env=dict(os.environ, PYTHONHASHSEED="0"))
+            if rr.returncode == 0:
+                okk = True
+                break
+        if not okk:
+            still.append(name)
+    meta["rerun_alone"] = {"first_run_missing": missing, "still_failing": still}
+    missing = still
     meta["baseline_stable_tests"] = len(stable); meta["baseline_stable_still_passing"] = len(stable) - len(missing)
     meta["baseline_missing"] = missing[:10]
     meta["pytest_tail"] = t.stdout.strip().splitlines()[-1:]
